@@ -3,8 +3,10 @@ package sqlh
 import (
 	"context"
 	"fmt"
+	"runtime"
 	"strings"
 	"sync"
+	"sync/atomic"
 	"testing/synctest"
 	"time"
 
@@ -45,13 +47,16 @@ type CluStep struct {
 }
 
 type CluBody struct {
-	Journal bool      `json:"journal"` // the standby's store is a journaling store (as a sql-server's is)
-	Open    bool      `json:"open"`    // the gate starts open
-	Steps   []CluStep `json:"steps"`
+	Journal bool `json:"journal"` // the standby's store is a journaling store (as a sql-server's is)
+	Open    bool `json:"open"`    // the gate starts open
+	// InitStall: the hook's first read of the primary's root is held for 300 simulated ms right after
+	// it happened, and the first write arrives meanwhile
+	InitStall bool      `json:"init_stall,omitempty"`
+	Steps     []CluStep `json:"steps"`
 }
 
 func genCluster(r *core.Rand, tier string) *CluBody {
-	b := &CluBody{Journal: r.Chance(1, 2), Open: r.Chance(1, 3)}
+	b := &CluBody{Journal: r.Chance(1, 2), Open: r.Chance(1, 3), InitStall: r.Chance(1, 2)}
 	n := r.Range(15, 50)
 	if tier == "thorough" && r.Chance(1, 3) {
 		n = r.Range(50, 110)
@@ -93,6 +98,17 @@ func genCluster(r *core.Rand, tier string) *CluBody {
 type rootRecorder struct {
 	*nbs.GenerationalNBS
 	on func(hash.Hash)
+}
+
+// stallRead, when set, is called after a read of the primary's root (see InitStall).
+var stallRead func()
+
+func (r rootRecorder) Root(ctx context.Context) (hash.Hash, error) {
+	h, err := r.GenerationalNBS.Root(ctx)
+	if f := stallRead; f != nil {
+		f()
+	}
+	return h, err
 }
 
 func (r rootRecorder) Commit(ctx context.Context, cur, last hash.Hash) (bool, error) {
@@ -185,24 +201,7 @@ func (x *repRun) runCluster(b *RepBody) {
 	down := false
 	x.net.Before = func(kind, name string) { g.pass() }
 	x.net.Down = func() bool { return down }
-	defer func() { x.net.Before, x.net.Down = nil, nil }()
-	ddb.PrependCommitHooks(x.ctx, hook)
-	hctx, cancel := context.WithCancel(x.ctx)
-	done := hook.DsimStart(hctx, func(ctx context.Context) (*sql.Context, error) { return x.w.SE.NewDefaultContext(ctx) })
-	stopped := false
-	stop := func() {
-		if stopped {
-			return
-		}
-		stopped = true
-		// the replicate thread makes a last attempt while it shuts down: let it through
-		down = false
-		x.netRate = 0
-		g.set(true, 0)
-		cancel()
-		<-done
-	}
-	defer stop()
+	defer func() { x.net.Before, x.net.Down, stallRead = nil, nil, nil }()
 
 	primaryRoot := func() string {
 		h, err := ddb.NomsRoot(x.ctx)
@@ -255,12 +254,56 @@ func (x *repRun) runCluster(b *RepBody) {
 		return r
 	}
 	note()
+	// the hook comes up (as the controller brings it up on a primary) ...
+	driver := runtime.DsimGoid()
+	var firstWriteDone, stallEntered atomic.Bool
+	if cb.InitStall {
+		// ... and its first look at the primary's root is held for a while right after it has read it,
+		// while the first write arrives: whatever the hook does about that write and the root it read,
+		// the write must reach the standby
+		// (the stall is a bounded spin, not a sleep: on the unchanged tree the hook holds its mutex
+		// across this read and the write's commit hook waits for that mutex - a goroutine waiting for a
+		// mutex keeps the bubble's clock from moving, so a sleeping reader would never wake)
+		stallRead = func() {
+			if runtime.DsimGoid() != driver {
+				stallRead = nil
+				stallEntered.Store(true)
+				for i := 0; i < 2_000_000 && !firstWriteDone.Load(); i++ {
+					runtime.Gosched()
+				}
+			}
+		}
+	}
+	ddb.PrependCommitHooks(x.ctx, hook)
+	hctx, cancel := context.WithCancel(x.ctx)
+	done := hook.DsimStart(hctx, func(ctx context.Context) (*sql.Context, error) { return x.w.SE.NewDefaultContext(ctx) })
+	stopped := false
+	stop := func() {
+		if stopped {
+			return
+		}
+		stopped = true
+		// the replicate thread makes a last attempt while it shuts down: let it through
+		down = false
+		x.netRate = 0
+		g.set(true, 0)
+		cancel()
+		<-done
+	}
+	defer stop()
 	lastStandbyIdx := -1
 	ackOn := false
 	acked, ackTimedOut, standbyMoves := 0, 0, 0
 
 	check := func(what string) {
 		res.Evaluations++
+		// at a quiescent point every finished write has gone through the hook's Execute: a hook that
+		// calls itself caught up has pushed the primary's current root
+		if _, pushed, caughtUp, _ := hook.DsimState(); caughtUp && !stopped {
+			if cur := primaryRoot(); pushed.String() != cur {
+				res.Violate("hook-caught-up-at-stale-root", "after="+what, x.step, "after %s the commit hook reports that it is caught up, having pushed %s; the primary's store root is %s", what, pushed, cur)
+			}
+		}
 		sdb, err := x.openStoreDir(standbyDir, cb.Journal)
 		if err != nil {
 			if lastStandbyIdx < 0 {
@@ -302,6 +345,29 @@ func (x *repRun) runCluster(b *RepBody) {
 		}
 	}
 
+	if cb.InitStall {
+		// wait (bounded) until the hook has read the root and sits in the stall
+		for i := 0; i < 4_000_000 && !stallEntered.Load(); i++ {
+			runtime.Gosched()
+		}
+		if !stallEntered.Load() {
+			res.Probe("hook_initialisation_not_observed")
+		}
+		x.nextPK++
+		if _, err := s.Exec(x.ctx, fmt.Sprintf("INSERT INTO t VALUES (%d, 'pri', 'the write that arrives while the hook initialises')", x.nextPK)); err != nil {
+			x.fail("first write: %v", err)
+			return
+		}
+		firstWriteDone.Store(true)
+		note()
+		res.Fault("write-during-hook-initialisation")
+		synctest.Wait()
+		x.step = -1
+		check("the write that arrived while the hook initialised")
+		if res.Violated() {
+			return
+		}
+	}
 	nb := 0
 	for i := range cb.Steps {
 		x.step = i
